@@ -105,7 +105,7 @@ func GetPKI() *PKI {
 		lo := []net.IP{net.IPv4(127, 0, 0, 1), net.IPv6loopback}
 		pki = &PKI{
 			CA1: c1.pem, CA2: c2.pem,
-			Good:      c1.issue("localhost", []string{"localhost", "t.example.org"}, lo, false, from, to),
+			Good:      c1.issue("localhost", []string{"localhost", "t.example.org", "*.c16.example.org"}, lo, false, from, to),
 			GoodDNS:   c1.issue("localhost", []string{"localhost"}, nil, false, from, to),
 			GoodIP:    c1.issue("127.0.0.1", nil, lo, false, from, to),
 			WrongHost: c1.issue("other.example.net", []string{"other.example.net"}, nil, false, from, to),
